@@ -64,13 +64,14 @@ fn forms(secret: &[u8], text: Option<&str>) -> Vec<(String, String)> {
             }
         }
     }
-    // windows of the secret, so that a partial dump is found as well
+    // windows of the secret at every fourth offset, so that a dump of any part of it is found
     let win = |n: usize| -> Vec<&[u8]> {
         if secret.len() <= n {
             vec![secret]
         } else {
-            let mid = (secret.len() - n) / 2;
-            vec![&secret[..n], &secret[mid..mid + n], &secret[secret.len() - n..]]
+            let mut v: Vec<&[u8]> = (0..=secret.len() - n).step_by(4).map(|i| &secret[i..i + n]).collect();
+            v.push(&secret[secret.len() - n..]);
+            v
         }
     };
     for w in win(12) {
@@ -113,6 +114,52 @@ fn search(log: &str, needles: &[(String, String)], own_only: bool) -> Vec<Value>
         }
     }
     leaks
+}
+
+/// The part of a private key (DER) that is secret, by kind of key: what must not show up in a log.  The rest (version,
+/// algorithm identifiers, the public key that is embedded once more) may.
+fn secret_part(class: &str, der: &[u8], public: &[u8]) -> Vec<u8> {
+    let find = |hay: &[u8], needle: &[u8]| hay.windows(needle.len()).position(|w| w == needle);
+    if class.starts_with("ec-") {
+        // ECPrivateKey ::= SEQUENCE { version 1, privateKey OCTET STRING, ... } (bare, or inside a PKCS#8 OCTET STRING)
+        if let Some(p) = find(der, &[0x02, 0x01, 0x01, 0x04]) {
+            let len = der[p + 4] as usize;
+            if len < 0x80 && p + 5 + len <= der.len() {
+                return der[p + 5..p + 5 + len].to_vec();
+            }
+        }
+    }
+    if class.starts_with("ed25519") && der.len() >= 32 {
+        return der[der.len() - 32..].to_vec();
+    }
+    // RSA: everything that is not also part of the certificate (the modulus is) and not the header
+    let mut out = Vec::new();
+    let mut i = 24.min(der.len());
+    while i < der.len() {
+        let end = (i + 12).min(der.len());
+        if end - i == 12 && find(public, &der[i..end]).is_some() {
+            // a stretch the certificate has as well: public; start a new run behind it (a zero byte separates the runs so
+            // that no window spans the gap)
+            out.push(0);
+            i += 12;
+        } else {
+            out.push(der[i]);
+            i += 1;
+        }
+    }
+    out
+}
+
+/// key files of other kinds than the RSA PKCS#8 one of the test PKI (fixtures/pki/keys)
+fn key_path(class: &str) -> std::path::PathBuf {
+    match class {
+        "ec-p521-sec1" | "ec-p256-sec1" | "ec-secp256k1-sec1" | "ec-p384-pkcs8" | "ed25519-pkcs8" | "rsa-pkcs1" => pki(&format!("keys/{class}.key")),
+        _ => pki("client.key"),
+    }
+}
+
+fn key_der_of(path: &std::path::Path) -> Vec<u8> {
+    rustls_pemfile::private_key(&mut std::io::BufReader::new(std::fs::File::open(path).unwrap_or_else(|e| panic!("{}: {e}", path.display())))).unwrap().unwrap().secret_der().to_vec()
 }
 
 // ---- peers ----
@@ -241,11 +288,8 @@ fn main() {
         .finish();
     tracing::subscriber::set_global_default(subscriber).expect("subscriber");
     let rt = tokio::runtime::Builder::new_multi_thread().worker_threads(4).enable_all().build().unwrap();
-    let key_der: Vec<u8> = rustls_pemfile::private_key(&mut std::io::BufReader::new(std::fs::File::open(pki("client.key")).unwrap()))
-        .unwrap()
-        .unwrap()
-        .secret_der()
-        .to_vec();
+    let key_der: Vec<u8> = key_der_of(&pki("client.key"));
+    let cert_der: Vec<u8> = rustls_pemfile::certs(&mut std::io::BufReader::new(std::fs::File::open(pki("client.crt")).unwrap())).next().unwrap().unwrap().to_vec();
     let stdout = std::io::stdout();
     for (k, c) in cases.iter().enumerate() {
         let transport = c["transport"].as_str().unwrap_or("");
@@ -294,13 +338,14 @@ fn main() {
             }
             "tls" => {
                 let stage2 = stage.to_string();
+                let class2 = class.to_string();
                 let outcome = rt.block_on(async move {
                     let addr = match stage2.as_str() {
                         "refused" => closed_port(),
                         s => tls_server(s).await,
                     };
                     let one = |n: &str| rustls_pemfile::certs(&mut std::io::BufReader::new(std::fs::File::open(pki(n)).unwrap())).next().unwrap().unwrap();
-                    let key = rustls_pemfile::private_key(&mut std::io::BufReader::new(std::fs::File::open(pki("client.key")).unwrap())).unwrap().unwrap();
+                    let key = rustls_pemfile::private_key(&mut std::io::BufReader::new(std::fs::File::open(key_path(&class2)).unwrap())).unwrap().unwrap();
                     match timeout(Duration::from_secs(6), Session::tls(addr, "localhost", one("ca.crt"), one("client.crt"), key)).await {
                         Err(_) => "timeout".to_string(),
                         Ok(Ok(_)) => "established".to_string(),
@@ -308,7 +353,9 @@ fn main() {
                     }
                 });
                 ev["outcome"] = json!(outcome);
-                (String::from_utf8_lossy(&buf.0.lock().unwrap()).to_string(), forms(&key_der, None), true)
+                let cls = class;
+                let der = key_der_of(&key_path(cls));
+                (String::from_utf8_lossy(&buf.0.lock().unwrap()).to_string(), forms(&secret_part(cls, &der, &cert_der), None), true)
             }
             "agent-daemon" => {
                 // ONE agent process in daemon mode: a job that gets its session and succeeds, then the router is gone and
@@ -379,7 +426,7 @@ fn main() {
                     (n, t)
                 });
                 ev["outcome"] = json!(format!("sessions seen by the router: {}", text.0));
-                let mut needles = forms(&key_der, None);
+                let mut needles = forms(&secret_part("key", &key_der, &cert_der), None);
                 let pem = std::fs::read_to_string(pki("client.key")).unwrap_or_default();
                 for l in pem.lines().filter(|l| !l.starts_with("-----")).take(3) {
                     needles.push(("pem-body".into(), l[..l.len().min(40)].to_string()));
@@ -418,9 +465,9 @@ fn main() {
                     "latin1-comment" => tmp("latin1", [b"# cl\xe9 priv\xe9e\n".to_vec(), key_pem.clone()].concat()),
                     "bom" => tmp("bom", [b"\xef\xbb\xbf".to_vec(), key_pem.clone()].concat()),
                     "truncated" => tmp("trunc", key_pem[..key_pem.len() * 2 / 3].to_vec()),
-                    _ => pki("client.key"),
+                    other => key_path(other),
                 };
-                let temp_key = class != "key";
+                let temp_key = keyfile.file_name().is_some_and(|n| n.to_string_lossy().starts_with("verif-"));
                 let certfile = if class == "combined-pem" { keyfile.clone() } else { pki("client.crt") };
                 let out = std::process::Command::new(&agent)
                     .args(["-f", "0", "-vvvv", "--irrd-host", "127.0.0.1", "--irrd-port", "1", "remote", "--netconf-host", "127.0.0.1",
@@ -437,10 +484,11 @@ fn main() {
                     Err(_) => (-2, String::new()),
                 };
                 ev["outcome"] = json!(format!("exit {code}"));
-                let mut needles = forms(&key_der, None);
-                // the PEM body itself
-                let pem = std::fs::read_to_string(pki("client.key")).unwrap_or_default();
-                for l in pem.lines().filter(|l| !l.starts_with("-----")).take(3) {
+                let der = key_der_of(&key_path(class));
+                let mut needles = forms(&secret_part(class, &der, &cert_der), None);
+                // the PEM body itself (not its first line: that is the same for every key of a kind)
+                let pem = std::fs::read_to_string(key_path(class)).unwrap_or_default();
+                for l in pem.lines().filter(|l| !l.starts_with("-----")).skip(1).take(3) {
                     needles.push(("pem-body".into(), l[..l.len().min(40)].to_string()));
                 }
                 (text, needles, false)
